@@ -357,7 +357,7 @@ harness! {
 }
 
 harness! {
-    /// kind=bounded tier=quick bound="valid UTF-8 string<=4 bytes, &str delimiter<=2 bytes (empty included); one next_back() and rev() of rsplit, then every step until exhaustion"
+    /// kind=bounded tier=thorough bound="valid UTF-8 string<=4 bytes, &str delimiter<=2 bytes (empty included); one next_back() and rev() of rsplit, then every step until exhaustion"
     #[kani::unwind(8)]
     #[kani::stub(konst_kernel::string::non_char_boundary_panic, crate::hlib::stub_non_char_boundary_panic)]
     fn c06_rsplit_rev_str(s) {
@@ -373,7 +373,7 @@ harness! {
 // delimiter whose continuation bytes keep matching).
 
 harness! {
-    /// kind=bounded tier=quick bound="valid UTF-8 string<=4 bytes, char delimiter (any char), every step until exhaustion (<=5 pieces)"
+    /// kind=bounded tier=thorough bound="valid UTF-8 string<=4 bytes, char delimiter (any char), every step until exhaustion (<=5 pieces)"
     #[kani::unwind(12)]
     #[kani::stub(konst_kernel::string::non_char_boundary_panic, crate::hlib::stub_non_char_boundary_panic)]
     fn c06_split_char(s) {
@@ -385,7 +385,7 @@ harness! {
 }
 
 harness! {
-    /// kind=bounded tier=quick bound="valid UTF-8 string<=4 bytes, char delimiter (any char), every step until exhaustion (<=5 pieces)"
+    /// kind=bounded tier=thorough bound="valid UTF-8 string<=4 bytes, char delimiter (any char), every step until exhaustion (<=5 pieces)"
     #[kani::unwind(12)]
     #[kani::stub(konst_kernel::string::non_char_boundary_panic, crate::hlib::stub_non_char_boundary_panic)]
     fn c06_rsplit_char(s) {
@@ -396,7 +396,7 @@ harness! {
 }
 
 harness! {
-    /// kind=bounded tier=quick bound="valid UTF-8 string<=4 bytes, char delimiter (any char), every step until exhaustion (<=5 pieces)"
+    /// kind=bounded tier=thorough bound="valid UTF-8 string<=4 bytes, char delimiter (any char), every step until exhaustion (<=5 pieces)"
     #[kani::unwind(12)]
     #[kani::stub(konst_kernel::string::non_char_boundary_panic, crate::hlib::stub_non_char_boundary_panic)]
     fn c06_split_terminator_char(s) {
@@ -407,7 +407,7 @@ harness! {
 }
 
 harness! {
-    /// kind=bounded tier=quick bound="valid UTF-8 string<=4 bytes, char delimiter (any char), every step until exhaustion (<=5 pieces)"
+    /// kind=bounded tier=thorough bound="valid UTF-8 string<=4 bytes, char delimiter (any char), every step until exhaustion (<=5 pieces)"
     #[kani::unwind(12)]
     #[kani::stub(konst_kernel::string::non_char_boundary_panic, crate::hlib::stub_non_char_boundary_panic)]
     fn c06_rsplit_terminator_char(s) {
@@ -418,7 +418,7 @@ harness! {
 }
 
 harness! {
-    /// kind=bounded tier=quick bound="valid UTF-8 string<=4 bytes, char delimiter (any char); one next_back() and rev() of split, then every step until exhaustion"
+    /// kind=bounded tier=thorough bound="valid UTF-8 string<=4 bytes, char delimiter (any char); one next_back() and rev() of split, then every step until exhaustion"
     #[kani::unwind(12)]
     #[kani::stub(konst_kernel::string::non_char_boundary_panic, crate::hlib::stub_non_char_boundary_panic)]
     fn c06_split_rev_char(s) {
@@ -428,7 +428,7 @@ harness! {
 }
 
 harness! {
-    /// kind=bounded tier=quick bound="valid UTF-8 string<=4 bytes, char delimiter (any char); one next_back() and rev() of rsplit, then every step until exhaustion"
+    /// kind=bounded tier=thorough bound="valid UTF-8 string<=4 bytes, char delimiter (any char); one next_back() and rev() of rsplit, then every step until exhaustion"
     #[kani::unwind(12)]
     #[kani::stub(konst_kernel::string::non_char_boundary_panic, crate::hlib::stub_non_char_boundary_panic)]
     fn c06_rsplit_rev_char(s) {
@@ -457,7 +457,7 @@ harness! {
 }
 
 harness! {
-    /// kind=bounded tier=quick bound="valid UTF-8 string<=4 bytes, &str delimiter of exactly 3 bytes, every step until exhaustion (<=2 pieces)"
+    /// kind=bounded tier=thorough bound="valid UTF-8 string<=4 bytes, &str delimiter of exactly 3 bytes, every step until exhaustion (<=2 pieces)"
     #[kani::unwind(10)]
     #[kani::stub(konst_kernel::string::non_char_boundary_panic, crate::hlib::stub_non_char_boundary_panic)]
     fn c06_rsplit_str_delim3(s) {
